@@ -63,6 +63,7 @@ def modelObs (pf : Profile) (req : List String) (implObs : String) : ModelObs :=
         let q := "Q " ++ (if e.hasAction then "1" else "0") ++ " " ++ (if e.complexFrames then "1" else "0")
         .obs (q ++ " | " ++ compileObs t0 t1 (fun _ => t0.toNat!) e o [path])
     | _, _ => .skip "bad-tree"
+  | ["Z", _] => .obs "ZZ"
   | ["U", "S", v, n] =>
     match sizeOfName v n.toNat! with
     | some s =>
